@@ -29,6 +29,8 @@ type options struct {
 	child       int
 	capInc      int
 	grace       bool
+	scenario    int
+	directed    string
 }
 
 func main() {
@@ -41,6 +43,8 @@ func main() {
 	flag.IntVar(&o.child, "child", -1, "internal: run only the history with this index")
 	flag.IntVar(&o.capInc, "capinc", 0, "capacity increment (0: random from 1, 2, 4 per history)")
 	flag.BoolVar(&o.grace, "grace", false, "give payloads released in the current burst one more burst before requiring finalization")
+	flag.IntVar(&o.scenario, "scenario", -1, "internal: with -child, run this directed scenario instead of a random history")
+	flag.StringVar(&o.directed, "directed", "auto", "run the directed scenarios after the random histories: on, off, auto (= only with -gcgoroutine)")
 	flag.Parse()
 
 	if o.child >= 0 {
@@ -58,6 +62,23 @@ func main() {
 			s = runChild(&o, i)
 		}
 		total.add(s)
+	}
+	if o.directed == "on" || (o.directed == "auto" && o.gcGoroutine) {
+		d := sums{}
+		for k := range scenarioNames {
+			o.scenario = k
+			var s sums
+			if o.inproc {
+				s = runHistory(&o, o.n+k)
+			} else {
+				s = runChild(&o, o.n+k)
+			}
+			d.add(s)
+		}
+		o.scenario = -1
+		fmt.Printf("DIRECTED scenarios=%d ops=%d live_checks=%d released_checks=%d fails=%d\n",
+			len(scenarioNames), d.ops, d.live, d.released, d.fails)
+		total.add(d)
 	}
 	fmt.Printf("SUMMARY histories=%d ops=%d live_checks=%d released_checks=%d fails=%d\n",
 		o.n, total.ops, total.live, total.released, total.fails)
@@ -82,7 +103,7 @@ func runChild(o *options, i int) sums {
 	}
 	args := []string{
 		"-child", fmt.Sprint(i), "-seed", fmt.Sprint(o.seed), "-len", fmt.Sprint(o.length),
-		"-capinc", fmt.Sprint(o.capInc),
+		"-capinc", fmt.Sprint(o.capInc), "-scenario", fmt.Sprint(o.scenario),
 		fmt.Sprintf("-gcgoroutine=%v", o.gcGoroutine), fmt.Sprintf("-grace=%v", o.grace),
 	}
 	ctx, cancel := context.WithTimeout(context.Background(), 120*time.Second)
@@ -148,6 +169,15 @@ func runHistory(o *options, idx int) sums {
 	h.capInc = o.capInc
 	if h.capInc <= 0 {
 		h.capInc = []int{1, 2, 4}[rng.Intn(3)]
+		switch o.scenario {
+		case 0:
+			h.capInc = 1
+		case 1:
+			h.capInc = 1024
+		}
+	}
+	if o.scenario >= 0 {
+		h.scen = " scenario=" + scenarioNames[o.scenario]
 	}
 
 	var stop chan struct{}
@@ -201,7 +231,10 @@ func runHistory(o *options, idx int) sums {
 	})
 	_ = ok
 
-	for !h.broken && h.op < o.length {
+	if o.scenario >= 0 && !h.broken {
+		h.runScenario(o.scenario)
+	}
+	for o.scenario < 0 && !h.broken && h.op < o.length {
 		burst := 6 + rng.Intn(9)
 		for i := 0; i < burst && !h.broken && h.op < o.length; i++ {
 			h.step()
@@ -212,6 +245,9 @@ func runHistory(o *options, idx int) sums {
 	}
 	h.finish()
 
+	if h.suppressed > 0 {
+		fmt.Fprintf(h.out, "FAIL history=%d op=%d suppressed:%s %d further failures not shown\n", h.idx, h.op, h.scen, h.suppressed)
+	}
 	if stop != nil {
 		close(stop)
 		wg.Wait()
